@@ -14,6 +14,7 @@ mkdir -p work replays evidence
 mkdir -p work/gen
 python3 tools/extract_asm.py /repo/src/biguint/addition.rs schoolbook_add_assign_x86_64 AsmProg work/gen >/dev/null 2>&1 || \
   printf -- '---- MODULE AsmProg ----\nProg == <<>>\nOperands == [x |-> [cls |-> "in", reg |-> "reg", expr |-> "x"]]\nRegNames == {"x"}\nParams == <<"lhs", "rhs", "size">>\nBlockDiv == 1\nSizeParam == "x"\nEarlyReturn == FALSE\nIdx0 == 0\nRetCarry == "x"\nRetDone == "x"\nOptions == {}\n====\n' > work/gen/AsmProg.tla
+python3 tools/extract_forms.py /repo/src work/gen >/dev/null 2>&1 || printf -- '---- MODULE OpFormsTable ----\nTable == <<>>\n====\n' > work/gen/OpFormsTable.tla
 for f in spec/*.tla mc/*.tla spec/algo/*.tla; do
   [ -f "$f" ] || continue
   d=$(dirname "$f"); b=$(basename "$f")
